@@ -16,6 +16,14 @@ C["C17"]=dict(cat="model_checking",engine="seqx",
  text="Explicit enumeration of every byte stream of length <=6 (7 thorough) over {a,b,LF} under every assignment of {no cut, cut, cut+empty Write, cut+Sync} to its byte boundaries, with/without a leading Sync and with Close / Close+Sync / Close+Close at the end, each run on a fresh zapio.Writer over an observer core (level enabled and disabled) and compared with a list reference model; plus multi-byte, invalid-UTF-8 and 5000-byte-line streams under all pairs of cut positions.",
  note="Alphabet and length bound as stated; no state deduplication (every history is run). Trusted: Go toolchain, zaptest/observer as the recording core.",
  tech="bounded-exhaustive enumeration of operation histories against a reference model (explicit-state, no dedup)")
+C["C04"]=dict(cat="model_checking",engine="vsched+mc",
+ text="All schedules with <=2 preemptions (3 thorough, on the smaller drivers) of ~620 generated drivers: 2-3 threads x 1-2 log calls (Logger.Info small/large, Sugar.Infow, Check+Write, With-child) sharing one core over Lock(sink), CombineWriteSyncers, zap.Open through a registered scheme, BufferedWriteSyncer (with concurrent Sync and flush ticks), tees thereof. The harness sink writes each payload in two halves with a scheduling point in between and counts overlapping calls; freed pool buffers are poisoned. Oracle: the sink stream splits into exactly the lines the same calls produce sequentially, once each, in per-thread order, on every tee branch; no deadlock/panic/leak.",
+ note="Scheduling points at synchronisation operations, pool Get/Put and inside the harness sink; sufficient for data-race-free code (C09). Thread/op counts and preemption bound as stated. "+TB,
+ tech="stateless model checking of the implementation: preemption-bounded DFS over all thread schedules under a controlled scheduler, sequential-reference oracle")
+C["C09"]=dict(cat="model_checking",engine="vsched+mc (race build)",
+ text="~10^4 generated programs (all unordered pairs of single operations over a ~33-op alphabet of the documented concurrent API, deeper-bounded pairs, 2-op sequences and triples over a reduced alphabet) x 8 core families x fresh/warmed-up objects, each explored over all schedules within the preemption bound, in a -race build whose scheduler hand-off is invisible to TSan (plain-word spin in //go:norace code, real primitives executed after each grant) so the race detector's happens-before relation is the program's own on every explored schedule. Verdicts: TSan report (worker exit 66, schedule taken from a journal, replayed 3x in fresh processes), deadlock, goroutine leak, livelock, panic.",
+ note="Happens-before race detection per explored schedule; 2-3 threads, 1-2 ops each; relaxed-memory effects of racy code not explored. Calibration: a seeded racy counter is reported, the locked variant and a pool hand-off are clean. "+TB,
+ tech="stateless model checking of the implementation under a controlled scheduler with the Go race detector active on every explored schedule")
 checks=[]
 for pid in sorted(C):
     c=C[pid]
